@@ -455,11 +455,17 @@ class CodeGen:
                     yield asm.Mov(self.defeat, stdlib.halt)
                     yield asm.Label(begin_try)
                     yield from self.gen_block(block.body)
+                    # If defeat was virtualized but the body completed
+                    # anyway (eg by a preempt block), it must stop
+                    # pointing to our handler.
+                    yield asm.Mov(self.defeat, prev_defeat)
                     yield from self.goto(end_try)
 
                     yield asm.Label(handler)
                     yield asm.Metadata('stop block')
                     self.effective_defeat = prev_defeat
+                    # Defeat behaves normally again from here on.
+                    yield asm.Mov(self.defeat, prev_defeat)
                     yield asm.Mov(self.fp, asm.State(self.try_fp))
                     yield from ap_bubble.value.to(self.ap)
                     yield from self.pop(ap_bubble)
